@@ -1,14 +1,65 @@
 (* C04 — Script encoding and decoding are inverse and canonical; the predicted size is exact.
-   Statements only; every proof is `exact <lemma>`.  Models: Ms/Ast.v (enc, encode),
-   Script/Ser.v (serialize, parse_script), Ms/LexModel.v (lex), Ms/DecodeModel.v (parse,
-   decode_max), Ms/CodecExt.v (script_size, pk_cost, hfv, gv). *)
-From Verif Require Import DecodeModel DecodeRefute.
+   Statements only; every proof is `exact <lemma>`.
+   Models (no proofs inside): Ms/Ast.v (enc, encode — mirror of astelem.rs + script::Builder),
+   Script/Ser.v (serialize, parse_script), Ms/LexModel.v (lex — mirror of lex.rs over
+   instructions_minimal), Ms/DecodeModel.v (parse = decode.rs `decode`; decode_max =
+   decode_with_validation_params(.., MAX)), Ms/CodecExt.v (script_size, pk_cost, hfv, gv),
+   Ms/CodecSpec.v (ms_wf = the invariants of the Rust types; mtoks = expected tokens). *)
+From Verif Require Import DecodeModel CodecSpec SerProofs LexProofs EncProofs DecodeProofs DecodeRefute.
 Local Open Scope N_scope.
+
+(* [T1] ser_parse: the byte-level parser inverts the serialiser on well-formed structured
+   scripts (minimal pushes, OP_n in range, opcode bytes that are neither pushes nor IF/ELSE/ENDIF). *)
+Theorem C04_ser_parse : forall s, wf_script s -> parse_script (serialize s) = Some s.
+Proof. exact ser_parse. Qed.
+Print Assumptions C04_ser_parse.
+
+(* ... in particular on every encoding: the structured script is recovered from the bytes *)
+Theorem C04_parse_encode : forall c ke, ksort_ok ke -> forall m, ms_wf c ke m ->
+  parse_script (encode ke m) = Some (enc ke m).
+Proof. exact parse_encode. Qed.
+Print Assumptions C04_parse_encode.
+
+(* [T1] script_size_ok: Miniscript::script_size (with the has_free_verify folding and the
+   code's script_num_size / pk_len) is the length of the encoding, for every well-formed
+   miniscript of every context — no typing needed. *)
+Theorem C04_script_size_ok : forall c ke, ksort_ok ke -> forall m, ms_wf c ke m ->
+  blen (encode ke m) = script_size c ke m.
+Proof. exact script_size_ok. Qed.
+Print Assumptions C04_script_size_ok.
+
+(* ExtData::has_free_verify is exactly "the last opcode folds into its VERIFY form" *)
+Theorem C04_free_verify : forall ke m, last_foldable (enc ke m) = hfv m.
+Proof. exact hfv_last. Qed.
+Print Assumptions C04_free_verify.
+
+(* [T1] lex_enc: lexing the encoding yields the expected token list *)
+Theorem C04_lex_enc : forall c ke, ksort_ok ke -> forall m, ms_wf c ke m ->
+  lex (encode ke m) = LexOk (mtoks ke m).
+Proof. exact lex_enc. Qed.
+Print Assumptions C04_lex_enc.
+
+(* [T2] decode_total: on every byte string, under every environment, the decoder answers
+   with a miniscript or an error class: no panic site is reachable (every unwrap / assert of
+   decode.rs is covered by the stack-discipline invariant) and 20 * #tokens + 8 machine steps
+   suffice. *)
+Theorem C04_decode_total : forall e b,
+  (exists m, decode_max e b = OOk m) \/ (exists err, decode_max e b = OErr err).
+Proof. exact decode_total. Qed.
+Print Assumptions C04_decode_total.
+
+Theorem C04_parse_no_panic : forall e toks n, parse e toks <> OPanic n.
+Proof. exact parse_no_panic. Qed.
+Print Assumptions C04_parse_no_panic.
+
+Theorem C04_lex_never_out_of_fuel : forall b, lex b <> LexErr LeFuel.
+Proof. exact lex_never_fuel. Qed.
+Print Assumptions C04_lex_never_out_of_fuel.
 
 (* decode_canonical — FULL statement, FALSE on the present tree:
      forall e b m, decode_max e b = OOk m -> encode (d_ke e) m = b.
    Refuted by the model (witness: and_v(v:multi_a(1,A,B),pk(A)) with 9d replaced by 9c 69);
-   the same witness is re-found on the implementation by every run of the check. *)
+   the same witness class is re-found on the implementation by every run of the check. *)
 Theorem C04_decode_canonical_refuted :
   exists (e : denv) (b : bytes) (m : ms),
     (forall k, k < 2 -> d_key e (kb (d_ke e) k) = Some k) /\
@@ -16,3 +67,7 @@ Theorem C04_decode_canonical_refuted :
     decode_max e (encode (d_ke e) m) = OOk m.
 Proof. exact decode_canonical_refuted_lemma. Qed.
 Print Assumptions C04_decode_canonical_refuted.
+
+(* non-vacuity: the hypotheses of the theorems above are satisfiable (the witness is well formed) *)
+Example C04_hypotheses_satisfiable : ms_wf Tap wit_ke wit_ms /\ ksort_ok wit_ke.
+Proof. exact wit_wf. Qed.
